@@ -501,7 +501,7 @@ func (m *model) fairOnNonWorkerCompletion(workerKey, queue string) {
 
 // fairCheckPick validates a task handed to a worker that asked for work
 // while it had none (pure pick from the queue).
-func (m *model) fairCheckPick(wk *workerSim, vt *scheduler.VerifTask, now time.Time) {
+func (m *model) fairCheckPick(wk *workerSim, vt *scheduler.VerifTask, now time.Time, schedulerStarts []int64) {
 	w := m.w
 	fw := m.fairWorkerOf(wk)
 	tree := buildFairTree(m.prev, m.queueNameOf(wk))
@@ -531,11 +531,41 @@ func (m *model) fairCheckPick(wk *workerSim, vt *scheduler.VerifTask, now time.T
 	}
 	ok := false
 	retained := 0
+	retainedValues := map[int]bool{}
 	for _, o := range vt.Operations {
 		if dec.acceptable[o.Name] {
 			ok = true
+			retainedValues[dec.retained[o.Name]] = true
 			if dec.retained[o.Name] > retained {
 				retained = dec.retained[o.Name]
+			}
+		}
+	}
+	if len(retainedValues) > 1 {
+		// In-flight deduplication: the same task is an acceptable pick
+		// through more than one invocation, and the paths retain a
+		// different number of stickiness levels. Which path was taken
+		// cannot be seen from the response; resolve it from the
+		// starting times the scheduler reports, provided they are what
+		// one of the acceptable paths produces.
+		m.labels["fair_retained_ambiguous"]++
+		for r := len(fw.starts); r >= 0; r-- {
+			if !retainedValues[r] {
+				continue
+			}
+			match := len(schedulerStarts) == len(fw.starts)
+			for l := 0; match && l < len(fw.starts); l++ {
+				want := fw.starts[l]
+				if l >= r {
+					want = now
+				}
+				if schedulerStarts[l] != want.UnixNano() && !(want.IsZero() && schedulerStarts[l] == (time.Time{}).UnixNano()) {
+					match = false
+				}
+			}
+			if match {
+				retained = r
+				break
 			}
 		}
 	}
